@@ -38,6 +38,12 @@ type facts struct {
 	OracleReq  map[uint64]int64 // pending oracle request id -> GAS reserved for the response
 	Balance    func(util.Uint160) int64
 	Accts      map[util.Uint160]*acct // accounts the harness knows (to judge witnesses)
+	// extensions
+	Blocks   []util.Uint256                          // hashes of the blocks on chain (height 1..)
+	NamedAt  map[util.Uint256]map[util.Uint160]uint32 // like Named, with the index of the newest naming block per signer
+	MTB      uint32                                  // MaxTraceableBlocks
+	Deposits map[util.Uint160]int64                  // Notary deposits, from the history's construction
+	Deployed map[util.Uint160]bool                   // deployed contracts, from the history's construction
 }
 
 // sCase is one submission of the soundness menu.
@@ -50,6 +56,9 @@ type sCase struct {
 	Want  bool
 	Why   string
 	NoEnc bool // do not derive encodings (huge transactions in the quick tier)
+	// NoDemand: the property text alone does not decide this case (a Conflicts
+	// record older than MaxTraceableBlocks): verdicts are counted, not judged.
+	NoDemand string
 }
 
 // valid decides from the property text whether content c may enter the pool
@@ -68,6 +77,9 @@ func valid(f *facts, c *sCase) (bool, string) {
 	}
 	if tx.SystemFee < 0 || tx.NetworkFee < 0 {
 		return false, "negative fee"
+	}
+	if tx.SystemFee+tx.NetworkFee < tx.SystemFee {
+		return false, "fee sum overflows"
 	}
 	if len(tx.Signers) == 0 {
 		return false, "no signers"
@@ -117,9 +129,22 @@ func valid(f *facts, c *sCase) (bool, string) {
 	if f.OnChain[h] {
 		return false, "already on chain"
 	}
+	for _, p := range c.Pre {
+		if hashOf(p) == h {
+			return false, "already in the pool"
+		}
+	}
 	if by := f.Named[h]; by != nil {
 		for _, s := range tx.Signers {
 			if by[s.Account] {
+				// inside the traceability window of the ledger the statement is
+				// demanded as written; the code documents that older conflict
+				// records are ignored (dao.HasTransaction), which the statement
+				// does not mention: no demand there
+				if at, ok := f.NamedAt[h][s.Account]; ok && f.MTB != 0 && at+f.MTB <= f.Height {
+					c.NoDemand = "named by an on-chain transaction that is not traceable any more"
+					continue
+				}
 				return false, "named by a Conflicts attribute of an on-chain tx of signer"
 			}
 		}
@@ -171,6 +196,9 @@ func valid(f *facts, c *sCase) (bool, string) {
 			if !tx.HasSigner(nativehashes.Notary) {
 				return false, "NotaryAssisted without Notary signer"
 			}
+			if tx.Sender() == nativehashes.Notary && len(tx.Signers) != 2 {
+				return false, "sent by the Notary contract with other than 2 signers"
+			}
 		default:
 			return false, "reserved attribute"
 		}
@@ -206,12 +234,31 @@ func valid(f *facts, c *sCase) (bool, string) {
 			}
 			continue
 		}
+		if ca := f.Accts[s.Account]; ca != nil && ca.Contract {
+			// contract-based witness: the deployed contract's verify method decides
+			if len(w.VerificationScript) != 0 {
+				return false, "verification script given for a contract account"
+			}
+			if !f.Deployed[s.Account] {
+				return false, "contract of the signer is not deployed"
+			}
+			if !ca.GoodInv(w.InvocationScript) {
+				return false, "verify method missing or not returning exactly true for this invocation script"
+			}
+			if g := c.Gas[i]; g > f.MaxVerGas {
+				return false, "verification too costly"
+			}
+			continue
+		}
 		if hash.Hash160(w.VerificationScript) != s.Account {
 			return false, "witness for another signer"
 		}
 		a := f.Accts[s.Account]
 		if a == nil {
 			return false, "unknown account"
+		}
+		if a.Bad != "" {
+			return false, "witness does not verify: " + a.Bad
 		}
 		if !a.Std {
 			// harness-made scripts: valid by construction, possibly too costly
@@ -240,6 +287,13 @@ func valid(f *facts, c *sCase) (bool, string) {
 	}
 	// solvency of the sender
 	need := tx.SystemFee + tx.NetworkFee
+	if tx.Sender() == nativehashes.Notary {
+		// paid from the Notary deposit of the second signer
+		if len(tx.Signers) < 2 || f.Deposits[tx.Signers[1].Account] < need {
+			return false, "deposit of the second signer cannot pay"
+		}
+		return true, ""
+	}
 	for _, p := range c.Pre {
 		if p.Sender() == tx.Sender() {
 			need += p.SystemFee + p.NetworkFee
@@ -328,8 +382,9 @@ func padScript(n int, tag byte) []byte {
 
 type shape struct {
 	Name string
-	Spec func(n *chainx.Node) *txSpec
+	Spec func(n *chainx.Node) *txSpec // nil result: the shape does not exist in this state
 	Big  bool
+	In   []string // states whose menu has this shape (nil: the states of the main scenario without a menu of their own)
 }
 
 func attrConflicts(h util.Uint256) transaction.Attribute {
